@@ -90,6 +90,10 @@ SCENARIOS = {
         fragment Inner on Node { id ... on User { ...UserBits } }
         fragment UserBits on User { name }
     """, {"get_node": {"GetNodeNodeUser": ["UserBits"], "GetNodeNodeBot": ["BaseModel"]}, "fragments": {"UserBits": ["BaseModel"]}}),
+    "subtype-fragment-spread-next-to-an-inline-fragment-at-an-interface-field": ("""
+        query GetNode { node { id ...UserBits ... on Bot { model } } }
+        fragment UserBits on User { name }
+    """, {"get_node": {"GetNodeNodeUser": ["UserBits"], "GetNodeNodeBot": ["BaseModel"]}, "fragments": {"UserBits": ["BaseModel"]}}),
     "fragment-on-interface-spread-inside-an-inline-fragment-on-that-interface": ("""
         fragment NodeFields on Node { id }
         query GetMe { me { ... on Node { ...NodeFields } name } }
